@@ -1,6 +1,38 @@
-(* Ops/C11.v — protocol entry points for property C11 (stub until the model is built). *)
-From Coq Require Import List String.
-From PrefVerif Require Import Lib.Val.
+(* Ops/C11.v — protocol entry points for property C11 (weak-order single-peakedness).
+   payload conventions: dtype code 0 soc, 1 soi, 2 toc, 3 toi, anything else: other;
+   order = list of classes (lists of N); profile = list of orders; alts / axis = list of N. *)
+From Coq Require Import List ZArith NArith String.
+From PrefVerif Require Import Lib.Val Model.SP.
 Import ListNotations.
+Open Scope string_scope.
 
-Definition ops : optable := [].
+Definition d_dt (v : val) : ord_dt :=
+  match dnat v with 0 => DTsoc | 1 => DTsoi | 2 => DTtoc | 3 => DTtoi | _ => DTother end.
+Definition d_alts (v : val) : list N := dlist dN v.
+Definition d_order (v : val) : order := dlist (dlist dN) v.
+Definition d_profile (v : val) : list order := dlist d_order v.
+
+(* (dtype profile axis) -> result bool *)
+Definition op_axis_test (v : val) : val :=
+  eresult ebool (is_single_peaked_axis_model (d_dt (dnth 0 v)) (d_profile (dnth 1 v)) (d_alts (dnth 2 v))).
+(* (alts profile) -> bool *)
+Definition op_decide (v : val) : val :=
+  ebool (spw_decide (d_alts (dnth 0 v)) (d_profile (dnth 1 v))).
+(* (alts profile axis) -> bool *)
+Definition op_check_axis (v : val) : val :=
+  ebool (spw_check_axis (d_alts (dnth 0 v)) (d_profile (dnth 1 v)) (d_alts (dnth 2 v))).
+(* (dtype alts profile) -> result bool *)
+Definition op_pq_tree (v : val) : val :=
+  eresult ebool (is_single_peaked_pq_tree_model (d_dt (dnth 0 v)) (d_alts (dnth 1 v)) (d_profile (dnth 2 v))).
+Definition op_ilp (v : val) : val :=
+  eresult ebool (is_single_peaked_ILP_model (d_dt (dnth 0 v)) (d_alts (dnth 1 v)) (d_profile (dnth 2 v))).
+(* (alts profile) -> 0/1 matrix (rows) *)
+Definition op_matrix (v : val) : val :=
+  elist (elist ebool) (sp_matrix (d_alts (dnth 0 v)) (d_profile (dnth 1 v))).
+(* (S order) -> restricted order ;  used to build embedded cores *)
+Definition op_restrict (v : val) : val :=
+  elist (elist eN) (restrict_order (d_alts (dnth 0 v)) (d_order (dnth 1 v))).
+
+Definition ops : optable :=
+  [ ("c11.axis_test", op_axis_test); ("c11.decide", op_decide); ("c11.check_axis", op_check_axis);
+    ("c11.pq_tree", op_pq_tree); ("c11.ilp", op_ilp); ("c11.matrix", op_matrix); ("c11.restrict", op_restrict) ].
